@@ -23,8 +23,15 @@ def join(a: State, b: State) -> State:
     return out
 
 
-def forward(g: CFG, init: State, transfer: Callable[[Node, State], State], max_iter: int = 20000) -> Dict[int, State]:
-    """Returns the IN state of every reachable node."""
+def forward(
+    g: CFG,
+    init: State,
+    transfer: Callable[[Node, State], State],
+    max_iter: int = 20000,
+    edge_refine: Optional[Callable[[Node, State, str], State]] = None,
+) -> Dict[int, State]:
+    """Returns the IN state of every reachable node.  edge_refine(node, out_state, label)
+    may sharpen the state carried along one outgoing edge (branch-sensitive facts)."""
     ins: Dict[int, State] = {g.entry: dict(init)}
     work = [g.entry]
     it = 0
@@ -38,6 +45,10 @@ def forward(g: CFG, init: State, transfer: Callable[[Node, State], State], max_i
         for t, lab in node.succ:
             # exceptional edges carry the IN state (the statement may not have completed)
             st = ins[nid] if lab in ("e",) else out
+            if edge_refine is not None and lab in ("t", "f"):
+                st = edge_refine(node, st, lab)
+                if st is None:
+                    continue  # the refinement shows this edge cannot be taken
             old = ins.get(t)
             new = dict(st) if old is None else join(old, st)
             if old is None or new != old:
